@@ -106,6 +106,8 @@ class Decompiler:
                 exps[wn[2]] = Xor(And(exps[wn[0]], exps[wn[1]]), exps[wn[2]])
             elif isinstance(g, gates.MCX):
                 exps[wn[-1]] = Xor(And(*[exps[ww] for ww in wn[0:-1]]), exps[wn[-1]])
+            elif isinstance(g, gates.I):
+                continue
             elif issubclass(g.__class__, gates.NopGate):
                 continue
             else:
